@@ -226,11 +226,13 @@ def r3_alaska(ctx):
     ctx.check(bool(good), g, qs[0] if qs else g.node, "Alaska.get_profile asks the STV for round rn - 1 (offset agrees with the +1 shift)",
               astx.u(qs[0]) if qs else "", "the round offset in Alaska.get_profile does not match the +1 renumbering")
     # rounds 0 and 1 are replayed
-    lits_rep = None
+    from vk.algebra import implies, spec_guard, NOT
+    early = spec_guard("round_number in [0, 1]", int_atoms=lambda a: True)
+    cond_rep = None
     for lp in (n for n in astx.walk_own(g.node) if isinstance(n, ast.For)):
-        lits_rep = literals(Ng.conj(astx.path_condition(g.node, lp, gpm)))
-    stv_lits = literals(Ng.conj(astx.path_condition(g.node, calls[0], gpm)))
-    good = lits_rep is not None and any("in(round_number, [0, 1])" == l for l in lits_rep) and any(l == "not in(round_number, [0, 1])" for l in stv_lits)
+        cond_rep = Ng.conj(astx.path_condition(g.node, lp, gpm))
+    cond_stv = Ng.conj(astx.path_condition(g.node, calls[0], gpm))
+    good = cond_rep is not None and implies(cond_rep, early) and implies(cond_stv, NOT(early))
     ctx.check(good, g, g.node, "Alaska.get_profile: rounds 0 and 1 replayed, later rounds delegated to the STV", "", "the round split in Alaska.get_profile changed")
 
 
